@@ -1,8 +1,9 @@
 """C20 - RcDom materialises sink operations faithfully.
 
 proof      : coq/Props/C20.v - the executable mirror of rcdom/lib.rs (coq/RcDom/RcModel.v) refines the
-             abstract DOM (coq/Dom/DomSpec.v) for every contract-respecting operation sequence; parent links,
-             serialization order; the option->selectedcontent mirroring is refuted with a witness.
+             abstract DOM (coq/Dom/DomSpec.v) for every contract-respecting operation sequence, the repaired
+             option->selectedcontent cloning included (C20_refines); parent links, serialization order; for the
+             code of the pinned commit the mirroring stays refuted with a witness.
 tie        : correspondence - op traces (recorded from html5ever/xml5ever parses by harness/src/tracesink.rs, and
              random op sequences) are replayed into the real RcDom (harness bin `rcdom`) and into the extracted
              model (ocaml/rcdom_driver.ml); trees, parent-link findings, Serialize visitor calls and panic sites
@@ -20,8 +21,9 @@ MATHML = "http://www.w3.org/1998/Math/MathML"
 ROOT = os.path.dirname(os.path.dirname(os.path.dirname(os.path.abspath(__file__))))
 
 KF_SELF_DATA = "selectedcontent-left-unfilled: clone op is a no-op in RcDom although the select has a selectedcontent descendant"
-KF_BFS = "selectedcontent-breadth-first: clones land in the breadth-first-first selectedcontent, not the first in tree order"
-KF_CLONE_PARENT = "clone-parent-link: only nodes under a selectedcontent filled by the clone op carry a stale parent link"
+# (the classes selectedcontent-breadth-first / clone-parent-link of the two findings that were latent behind the one
+# above are gone: the repaired model is proved to refine the specification, cloning included (C20_refines), so with the
+# repaired code any difference is a plain violation)
 
 
 # ---------------------------------------------------------------------- trace text format (tracesink.rs)
@@ -84,11 +86,16 @@ class Sim:
         return self.has_doctype or any(self.parent[c] == 0 and self.kind[c] == "elem" for c in range(len(self.kind)))
 
     def anc_or_self(self, c, p):
-        while p is not None:
+        """is c the node p or a host-including ancestor of it (from a template's contents the walk continues at the
+        template: a template inside its own contents would make clone_with_subtree recurse for ever)"""
+        host = {v: k for k, v in self.tmpl.items()}
+        seen = 0
+        while p is not None and seen <= len(self.kind):
             if p == c:
                 return True
-            p = self.parent[p]
-        return False
+            p = self.parent[p] if self.parent[p] is not None else host.get(p)
+            seen += 1
+        return p is not None
 
     def containers(self):
         return [h for h, k in enumerate(self.kind) if k in ("doc", "elem", "tdoc")]
@@ -631,84 +638,40 @@ def run(ck):
             noclone_tree = None
             if " ## " in nb:
                 noclone_tree = split_snapshot(nb.split(" ## ")[1][len("SPEC "):]).get("TREE")
-            m_final = model_out[idx].split(" ## ")[0].split(" || ")[-1]
-            model_agrees = m_final == re.sub(r"PANIC (\d+) .*", r"PANIC \1", impl_out[idx]).split(" || ")[-1]
             if tree_bad:
                 cls = None
                 still_bad = True
-                try:
-                    sroots = parse_forest(spec_tree)
-                    # nodes the clone op removed from a selectedcontent are parentless roots in the abstract DOM; in
-                    # RcDom they either are still children of the selectedcontent (nothing was cloned) or keep a stale
-                    # parent link to it (reported by the parent-link oracle): not a difference of the trees
-                    under_sc = set()
-
-                    def collect(n, inside):
-                        if inside and n["id"] not in (None, "-"):
-                            under_sc.add(n["id"])
-                        for k in n["kids"]:
-                            collect(k, inside or is_sc(n))
-                        if n["tmpl"] is not None:
-                            collect(n["tmpl"], inside)
-                    for r in roots:
-                        collect(r, False)
-                    for f in sn["LINKS"].split():
-                        parts = f.split(":")
-                        if parts[0] == "U" and len(parts) == 3 and parts[2].startswith("h"):
-                            par = find_by_id(roots, parts[2][1:])
-                            if par is not None and is_sc(par):
-                                under_sc.add(parts[1][1:])
-                    # (with the repaired clone code RcDom detaches the replaced children too: when the breadth-first
-                    # search picked another selectedcontent than the specification, each side has parentless roots
-                    # that are still selectedcontent children on the other side)
-                    under_sc_spec = set()
-
-                    def collect_spec(n, inside):
-                        if inside and n["id"] not in (None, "-"):
-                            under_sc_spec.add(n["id"])
-                        for k in n["kids"]:
-                            collect_spec(k, inside or is_sc(n))
-                        if n["tmpl"] is not None:
-                            collect_spec(n["tmpl"], inside)
-                    for r in sroots:
-                        collect_spec(r, False)
-                    sroots = [r for i, r in enumerate(sroots) if i == 0 or r["id"] not in under_sc]
-                    iroots = [r for i, r in enumerate(roots) if i == 0 or r["id"] not in under_sc_spec]
-                    still_bad = iroots != sroots
-                    confined = [strip_sc(r) for r in iroots] == [strip_sc(r) for r in sroots]
-                except Exception:       # noqa
-                    confined = False
                 if not sc_filled:
-                    # code with `self.data`: the only admissible signature is "the clone requests did nothing"
+                    # code with `self.data` (pinned commit): the only admissible signature is "the clone requests did
+                    # nothing"; the nodes the specification removes from a selectedcontent are parentless roots in
+                    # the abstract DOM and still children of the selectedcontent in RcDom
+                    try:
+                        sroots = parse_forest(spec_tree)
+                        under_sc = set()
+
+                        def collect(n, inside):
+                            if inside and n["id"] not in (None, "-"):
+                                under_sc.add(n["id"])
+                            for k in n["kids"]:
+                                collect(k, inside or is_sc(n))
+                            if n["tmpl"] is not None:
+                                collect(n["tmpl"], inside)
+                        for r in roots:
+                            collect(r, False)
+                        sroots = [r for i, r in enumerate(sroots) if i == 0 or r["id"] not in under_sc]
+                        still_bad = roots != sroots
+                        confined = [strip_sc(r) for r in roots] == [strip_sc(r) for r in sroots]
+                    except Exception:       # noqa
+                        confined = False
                     if has_clone and confined and sn["TREE"] == noclone_tree:
                         cls = KF_SELF_DATA
-                elif has_clone and confined and model_agrees:
-                    # code with `node.data`: the model (breadth-first search) predicts RcDom's tree exactly and
-                    # the difference to the specification is confined to selectedcontent children
-                    cls = KF_BFS
+                # repaired code: the forests (document + every parentless numbered node) must be equal as they are
                 if still_bad:
                     record_violation("RcDom's tree differs from the abstract DOM computed from the same operations", idx,
                                      {"impl_tree": sn["TREE"][:4000], "spec_tree": spec_tree[:4000]}, case_class=cls)
             if links_bad:
-                cls = None
-                try:
-                    ok = has_clone and model_agrees
-                    for f in sn["LINKS"].split():
-                        parts = f.split(":")
-                        if parts[0] == "D":
-                            chain = node_at(roots, parts[1])
-                            ok = ok and any(is_sc(n) for n in chain[:-1])
-                        elif parts[0] == "U":
-                            par = find_by_id(roots, parts[2][1:]) if parts[2].startswith("h") else None
-                            ok = ok and par is not None and is_sc(par)
-                        else:
-                            ok = False
-                    if ok:
-                        cls = KF_CLONE_PARENT
-                except Exception:       # noqa
-                    cls = None
                 record_violation("a parent link does not name the node whose child list contains the node: " + sn["LINKS"][:300],
-                                 idx, {"links": sn["LINKS"][:3000], "impl_tree": sn["TREE"][:4000]}, case_class=cls)
+                                 idx, {"links": sn["LINKS"][:3000], "impl_tree": sn["TREE"][:4000]})
 
     stats["clone_ops"] = ophist.get("maybe_clone_an_option_into_selectedcontent", 0)
     ck.cov.update({
@@ -721,8 +684,10 @@ def run(ck):
         "samples": samples, "op_histogram": ophist, "case_counts": stats,
         "correspondence_disagreements": disagreements, "oracle_failures": oracle_fail,
         "known_finding_samples": kf_samples,
-        "explanation": "Props/C20.v: RcModel refines DomSpec for all contract-respecting op sequences outside the "
-                       "option->selectedcontent finding, parent-link/NoDup/acyclicity invariant, Serialize = pre-order; the "
+        "explanation": "Props/C20.v: the model of the repaired rcdom/lib.rs refines DomSpec for ALL contract-respecting op "
+                       "sequences, option->selectedcontent cloning included (premise: the option's subtree with its template "
+                       "contents is finite - reported by the model driver as part of CONTRACT), parent-link/NoDup/acyclicity "
+                       "invariant, Serialize = pre-order; the model of the pinned commit is kept with its refutations; the "
                        "model is tied to rcdom/lib.rs by replaying the same traces (every intermediate #dump snapshot and the "
                        "final one: tree, parent-link findings, Serializer calls, quirks mode, panic site); the oracle compares "
                        "RcDom's own tree with the DomSpec tree, checks parent links and the Serializer call order.",
